@@ -268,6 +268,16 @@ def relUpStarts (h : Hist) (rows : List Id) (label : Option String) : Option (Li
 def relUpOk (h : Hist) (rows : List Id) (label : Option String) (n : Nat) (r : Id) : Option Bool :=
   match relUpStarts h rows label with
   | none => none
+  | some [none] =>
+    -- counting from the empty state: there must be exactly one root to start on - a revision without
+    -- `down_revision` (one that carries `depends_on` counts), on the named branch when one is named
+    -- (`C16.rel_up_empty` proves this of the model for the unlabelled form)
+    let roots := match label with
+      | none => basesOf h
+      | some l => match branchRev h l with
+        | some br => (basesOf h).filter (downLineage h br)
+        | none => []
+    some (roots.length == 1 && stepsDown h n r none)
   | some [s] => some (stepsDown h n r s)
   | some _ => some false
 
